@@ -93,8 +93,10 @@ def code_of(c, x):
 
 def main():
   rep = vlib.Report(PROP, "proof")
-  info = vlib.build_obligations(PROP)
-  errs = rep.obligations(info, "coqc -Q coq/theories QV coq/theories/Properties/C08.v")
+  from translate import stochgen
+  sgen = stochgen.emit(vlib.GEN)
+  info = vlib.build_obligations(PROP, gen_files=[sgen], extra_files=[os.path.join(vlib.COQ, "theories", "Link", "StochLink.v")])
+  errs = rep.obligations(info, "python3 tools/translate/stochgen.py coq/gen && coqc coq/gen/StochGen.v && coqc coq/theories/Link/StochLink.v && coqc coq/theories/Properties/C08.v")
   for e in errs:
     rep.violation("obligation-" + os.path.basename(e["file"]), "proof obligation no longer checks: " + e["error"][-400:],
                   {"file": e["file"]}, no_input=True)
